@@ -22,7 +22,7 @@ type c12 struct{}
 
 func init() { core.Register("C12", func() core.Scenario { return c12{} }) }
 
-var c12cats = []string{"reg", "reg", "unreg", "generic", "generic", "method", "dir", "type", "mutate", "mutate", "unknown", "flood", "terminate"}
+var c12cats = []string{"reg", "reg", "reg", "unreg", "unreg", "generic", "generic", "method", "dir", "type", "mutate", "mutate", "unknown", "flood", "terminate"}
 
 func (c12) Gen(r *rand.Rand, tier string, run int) *core.Case {
 	c := &core.Case{Prop: "C12", Params: map[string]int{}}
@@ -32,6 +32,7 @@ func (c12) Gen(r *rand.Rand, tier string, run int) *core.Case {
 		c.Net.ReadMode = "random"
 	}
 	c.Params["objects"] = 2 + r.IntN(2)
+	c.Params["focus"] = r.IntN(3)
 	// sub-batches: a hostile client that keeps draining its connection, one
 	// that stops reading, and one that mostly mutates valid traffic
 	switch k := r.IntN(10); {
@@ -67,10 +68,11 @@ type c12state struct {
 	removedObjs map[uint32]bool
 	serviceGone bool
 	sent        int
+	focus       int
 }
 
 func (c12) Run(c *core.Case, env *core.Env) {
-	st := &c12state{removedObjs: map[uint32]bool{}}
+	st := &c12state{removedObjs: map[uint32]bool{}, focus: c.P("focus", 0)}
 	env.Set("st", st)
 	zzsim.SetNode("server")
 	srv, err := directory.NewServer(ServerAddr, bus.Dictionary(map[string]string{"u": "p"}))
@@ -211,13 +213,31 @@ func c12frames(st *c12state, cat string, r *rand.Rand) [][]byte {
 		}
 		return p
 	}
-	regPayload := func() []byte {
+	// subscriptions: mostly well-formed, on few user ids and signals, so that
+	// repeated and conflicting registrations really collide
+	regPayloadFor := func(o uint32) []byte {
 		var b ref.Buf
-		b.U32(obj())
-		b.U32(pick32(SigTick, SigTock, PropLvl, 0x56, 9999, 0))
-		b.U64(uint64(pick32(1, 2, 3, 0, 0xffffffff)))
+		switch r.IntN(10) {
+		case 0:
+			b.U32(obj())
+		case 1, 2, 3:
+			b.U32(0)
+		default:
+			b.U32(o)
+		}
+		if r.IntN(7) == 0 {
+			b.U32(pick32(0x56, 9999, 0))
+		} else {
+			b.U32(pick32(SigTick, SigTock, PropLvl))
+		}
+		if r.IntN(6) == 0 {
+			b.U64(uint64(pick32(3, 0, 0xffffffff)))
+		} else {
+			b.U64(uint64(pick32(1, 2)))
+		}
 		return b.Bytes()
 	}
+	regPayload := func() []byte { return regPayloadFor(w.ObjIDs[r.IntN(len(w.ObjIDs))]) }
 	target := func() (uint32, uint32) {
 		if r.IntN(4) == 0 {
 			return st.dirID, 1
@@ -233,7 +253,11 @@ func c12frames(st *c12state, cat string, r *rand.Rand) [][]byte {
 		var out [][]byte
 		for i := 0; i < 1+r.IntN(3); i++ {
 			s, o := target()
-			out = append(out, ref.NewFrame(uint8(pick32(ref.Call, ref.Call, ref.Post)), s, o, act, id(), regPayload()).Encode())
+			if r.IntN(4) != 0 {
+				// most of the time the same object, so that sequences build up on it
+				s, o = st.probeSvc, w.ObjIDs[st.focus%len(w.ObjIDs)]
+			}
+			out = append(out, ref.NewFrame(uint8(pick32(ref.Call, ref.Call, ref.Call, ref.Post)), s, o, act, id(), regPayloadFor(o)).Encode())
 		}
 		return out
 	case "generic":
@@ -369,14 +393,16 @@ func (c12) Check(c *core.Case, env *core.Env, res zzsim.Result, v *core.Verdict)
 	}
 	hs := env.History()
 	// why would an operation be stuck? look at what the server's goroutines wait for
-	var where []string
+	var where, all []string
 	cause := func() string {
 		inWrite, inLock := 0, 0
 		where = nil
+		all = nil
 		for _, g := range env.Alive {
 			if g.Node != "server" {
 				continue
 			}
+			all = append(all, g.Name+"@"+g.Site)
 			if strings.HasPrefix(g.Site, "net.Write.blocked") {
 				inWrite++
 				where = append(where, g.Name+"@"+g.Site)
@@ -402,7 +428,7 @@ func (c12) Check(c *core.Case, env *core.Env, res zzsim.Result, v *core.Verdict)
 			switch {
 			case strings.HasPrefix(h.Kind, "probe"):
 				cs := cause()
-				bad("probe-unanswered/"+cs, "after the hostile client's %d frames (finale %d) a fresh client's request was never answered: %s\n  blocked server goroutines: %s", st.sent, c.P("finale", 0), h, strings.Join(where, ", "))
+				bad("probe-unanswered/"+cs, "after the hostile client's %d frames (finale %d) a fresh client's request was never answered: %s\n  blocked server goroutines: %s\n  all server goroutines: %s", st.sent, c.P("finale", 0), h, strings.Join(where, ", "), strings.Join(all, ", "))
 			case h.Kind == "hostile":
 				// the hostile client itself is stuck writing: its own problem
 			default:
